@@ -56,12 +56,12 @@ func (f *fakeSMS) SendCode(areaCode, phone, code string) error {
 }
 
 type params struct {
-	cap                       int // CacheSize
-	mock                      bool
-	codeLen                   int // may be negative (out of the property's domain; both sides still agree)
-	maxc, maxv                int
-	ttl, mini, win            int64 // TTL, MinInterval, CounterDuration in milliseconds (any sign)
-	smsfail                   bool
+	cap            int // CacheSize
+	mock           bool
+	codeLen        int // may be negative (out of the property's domain; both sides still agree)
+	maxc, maxv     int
+	ttl, mini, win int64 // TTL, MinInterval, CounterDuration in milliseconds (any sign)
+	smsfail        bool
 }
 
 // The clock. With the hook vcode.VerifSetNow (build tag vcodenow, see clock_hook.go) the implementation reads a fake clock:
@@ -96,14 +96,14 @@ type pairState struct {
 }
 
 type sess struct {
-	inited bool
-	p      params
-	logic  vcode.VCLogic
-	sms    *fakeSMS
-	hashes []string // hash of accepted send k (index k-1)
-	codes  []string // code of accepted send k
-	pairs  map[[2]string]*pairState
-	hits   []corr.Hit
+	inited  bool
+	p       params
+	logic   vcode.VCLogic
+	sms     *fakeSMS
+	hashes  []string // hash of accepted send k (index k-1)
+	codes   []string // code of accepted send k
+	pairs   map[[2]string]*pairState
+	hits    []corr.Hit
 	clockMs int64  // the fake clock reading
 	restore func() // uninstalls the fake clock
 }
@@ -1260,6 +1260,14 @@ func clockCases() []corr.Case {
 }
 
 func fixedCases() []corr.Case {
+	cs := fixedBase()
+	if clockAvailable {
+		cs = append(cs, clockCases()...)
+	}
+	return cs
+}
+
+func fixedBase() []corr.Case {
 	std := "new cap=100000 mock=0 len=6 maxc=3 maxv=3 ttl=9223372037 mini=-1 win=9223372037 smsfail=0"
 	mock := "new cap=100000 mock=1 len=4 maxc=3 maxv=3 ttl=9223372037 mini=-1 win=9223372037 smsfail=0"
 	return []corr.Case{
@@ -1357,9 +1365,9 @@ func spec() corr.Spec {
 			}
 			return (acc && ver) || other
 		},
-		Rule: "send/verify histories over up to 7 (area, phone) pairs — area codes and phones with and without '-', empty strings, and groups of pairs that a dashed or an unseparated key confuses — mock and real-sender modes, code lengths {-1,0,1,4,6,25}, limits -1..5, all always/never regimes, failing sender, CacheSize 100000 or 0..4 (eviction); classes: random histories, attempt-limit boundaries, send-limit boundaries, cross-pair code/hash reuse, small-cache eviction, scripted genNonceStr, sampled SecGenNonceStr, malformed lines; non-trivial = an accepted send followed by a verify, or a nonce/cover/sample line that was executed; distinct = distinct script text",
+		Rule: "send/verify histories over up to 7 (area, phone) pairs — area codes and phones with and without '-', empty strings, and groups of pairs that a dashed or an unseparated key confuses — mock and real-sender modes, code lengths {-1,0,1,4,6,25}, limits -1..5, durations -1 ms / 9223372037 ms (and, with the clock hook, finite durations probed at d-1, d, d+1 by tick lines; class `boundary`), failing sender, CacheSize 100000 or 0..4 (eviction); classes: random histories, attempt-limit boundaries, send-limit boundaries, cross-pair code/hash reuse, small-cache eviction, scripted genNonceStr, sampled SecGenNonceStr, malformed lines; non-trivial = an accepted send followed by a verify, or a nonce/cover/sample line that was executed; distinct = distinct script text",
 		Assumptions: []string{
-			"durations are used in their always/never regimes only: TTL and CounterDuration -1ns | 9223372036854776ns (106.75 days), MinInterval 0 | 9223372036854776ns; the monotonic clock does not go backwards and a script runs in far less than 106 days. The 'never' value is chosen so that a unit slip by x1000 overflows into the 'always' regime; the unit itself is the pinned fact durationIdentity (tex.Duration.Duration() = time.Duration(i))",
+			"time: without the clock hook (default build, clock_nohook.go) vcode reads the real clock; only the durations -1 ms (always elapsed) and 9223372037 ms (106.75 days, never elapses; x1000 overflows into a negative duration) are configured, for which the unknown real elapsed time (a few microseconds, >= 0, monotonic) and the model's elapsed time 0 compare alike; no tick lines. With the hook vcode.VerifSetNow (build tag vcodenow) the implementation reads a fake clock set by tick lines and every duration d in {0,1,2,3,5,10,1000,86400000} ms is probed at d-1, d, d+1. The unit is the pinned fact durationIdentity (tex.Duration.Duration() = time.Duration(i))",
 			"the cache is cache.LRUCache with capacity CacheSize and entries of size 1 (facts sizeIsOne, simpleCacheIsLRU; NewSimpleLogic ignores the cache passed in: fact ownCache); its semantics (Set moves to front and evicts from the back, Get promotes, Peek does not) are modelled and exercised with CacheSize 0..4",
 			"random.MD5UUID() returns a fresh non-empty string per call (checked by monitor C19:MD5UUID:hash-repeated on every script); modelled as the sequence number of the accepted send",
 			"codes of the real-sender mode are random: modelled symbolically (text = genNonce over an abstract source); `c<k>` code arguments are generated only in mock mode or with CodeLen >= 20, `lit:` digit codes only in mock mode, scripts with key-confusable pairs use mock mode or CodeLen 0/25, so that two independent random codes are equal with probability < 1e-20",
